@@ -13,6 +13,8 @@ import (
 	"time"
 
 	"github.com/nsqio/nsq/internal/auth"
+	"github.com/nsqio/nsq/internal/lg"
+	"github.com/nsqio/nsq/internal/protocol"
 	"github.com/nsqio/nsq/internal/verifrt"
 )
 
@@ -211,8 +213,19 @@ func verifC11Auth() {
 	}
 	cached := verifGrant("cached")
 	current := verifGrant("current")
+	// an optional SECOND grant in the answer that decides (cached or current): for another topic,
+	// with a permission set that may differ from the first grant's - permissions are per grant
+	var second []auth.Authorization
+	switch verifrt.Choice("second-grant", 4) {
+	case 1:
+		second = []auth.Authorization{{Topic: "^other$", Channels: []string{".*"}, Permissions: []string{"publish", "subscribe"}}}
+	case 2:
+		second = []auth.Authorization{{Topic: "^other$", Channels: []string{".*"}, Permissions: []string{"subscribe"}}}
+	case 3:
+		second = []auth.Authorization{{Topic: "^other$", Channels: []string{".*"}, Permissions: []string{"publish"}}}
+	}
 	var replies []verifAuthReply
-	cur := auth.State{TTL: 60, Authorizations: []auth.Authorization{current}}
+	cur := auth.State{TTL: 60, Authorizations: append([]auth.Authorization{current}, second...)}
 	if currentEmpty {
 		cur.Authorizations = nil
 	}
@@ -222,7 +235,7 @@ func verifC11Auth() {
 	verifrt.StubNative("(*github.com/nsqio/nsq/nsqd.NSQD).Notify", verifNotifyNop)
 	cl, _ := verifClient(n, 1, append(verifBE32(5), append(verifBE32(1), append(verifBE32(1), 'x')...)...))
 	if authed {
-		s := &auth.State{TTL: 60, Authorizations: []auth.Authorization{cached}}
+		s := &auth.State{TTL: 60, Authorizations: append([]auth.Authorization{cached}, second...)}
 		if expired {
 			s.Expires = time.Unix(1, 0) // long ago
 		} else {
@@ -279,5 +292,75 @@ func verifC11Auth() {
 		verifrt.Assert(*queries == 1, "expired-grants-are-re-fetched-exactly-once")
 	} else {
 		verifrt.Assert(*queries == 0, "unexpired-grants-are-not-re-fetched")
+	}
+}
+
+// ---- the wiring in NSQD.Main ----
+//
+// Main builds the plaintext HTTP server and the HTTPS server from the configured policy. Whatever
+// listeners exist: with tls-required=true the server that Main puts on the PLAINTEXT listener
+// answers 403 to every request without routing it; in tcp-https mode and without a TLS
+// requirement it serves. The real Main runs (the accept loops, the queue scanner and the lookup
+// loop are replaced by recorders / no-ops); a request is then sent through the handler Main
+// registered for the plaintext listener.
+
+type verifServed struct {
+	proto   string
+	handler http.Handler
+}
+
+var verifServedList []verifServed
+
+func verifServeStub(listener net.Listener, handler http.Handler, proto string, logf lg.AppLogFunc) error {
+	verifServedList = append(verifServedList, verifServed{proto, handler})
+	return nil
+}
+func verifTCPServerStub(listener net.Listener, handler protocol.TCPHandler, logf lg.AppLogFunc) error {
+	return nil
+}
+func verifLoopNop(n *NSQD) {}
+
+func VerifC11_MainWiresThePlaintextGate() {
+	o := verifOpts()
+	policy := verifrt.Choice("tls-required", 3)
+	o.TLSRequired = []int{TLSNotRequired, TLSRequiredExceptHTTP, TLSRequired}[policy]
+	n := verifShellNSQD(o)
+	verifrt.StubNative("(*github.com/nsqio/nsq/nsqd.NSQD).Notify", verifNotifyNop)
+	verifrt.StubNative("github.com/nsqio/nsq/internal/http_api.Serve", verifServeStub)
+	verifrt.StubNative("github.com/nsqio/nsq/internal/protocol.TCPServer", verifTCPServerStub)
+	verifrt.StubNative("(*github.com/nsqio/nsq/nsqd.NSQD).queueScanLoop", verifLoopNop)
+	verifrt.StubNative("(*github.com/nsqio/nsq/nsqd.NSQD).lookupLoop", verifLoopNop)
+	verifrt.Preemptions(0)
+	verifServedList = nil
+	n.tcpListener = verifListener{4150}
+	n.httpListener = verifListener{4151}
+	haveHTTPS := verifrt.Choice("https-listener", 2) == 1
+	if haveHTTPS {
+		n.httpsListener = verifListener{4152}
+	}
+	verifrt.Atomic(func() { n.Main() })
+	verifrt.Join()
+	var plain http.Handler
+	for _, s := range verifServedList {
+		if s.proto == "HTTP" {
+			plain = s.handler
+		}
+	}
+	verifrt.Assert(plain != nil, "main-serves-the-plaintext-http-listener")
+	if plain == nil {
+		return
+	}
+	// the handler Main registered, with the routing replaced by a counter
+	hs := plain.(*httpServer)
+	r := &verifRouter{}
+	hs.router = r
+	w := &verifRW{hdr: http.Header{}}
+	hs.ServeHTTP(w, verifReq("POST", "/pub", "topic=t", []byte("x"), false, 1))
+	if o.TLSRequired == TLSRequired {
+		verifrt.Assert(w.status == 403 && r.calls == 0, "tls-required-refuses-plaintext-http-whatever-listeners-exist")
+		verifrt.Reach("refused-without-https-listener", !haveHTTPS)
+	} else {
+		verifrt.Assert(r.calls == 1 && w.status != 403, "plaintext-http-served-when-tls-is-not-required-for-http")
+		verifrt.Reach("tcp-https-mode-serves-plaintext-http", o.TLSRequired == TLSRequiredExceptHTTP)
 	}
 }
